@@ -74,6 +74,18 @@ CLAIMED = {
             "PARTIAL machine-checked proof: the ingredients of the Einfeldt/Perthame-Shu positivity argument are proved for the Euler kernels exactly as coded (cone convexity, two-sided wave-speed lemma, admissible HLL intermediate state, HLLE = HLL with the code's own speeds which satisfy the bounds by construction; positive HLL depth for shallow water). Not proved: CFL<=1/2 on cell speeds implies the face wave-speed condition; HLLC; the assembled one-step statement. These are explored by the sweep (strong jumps, ratios 1e3, Mach 3, 40 steps).",
             "Trusted: Lean kernel + standard axioms; transcription of flux kernels (L-flux-*), pipeline (L-rhs1d), integrators (L-int); sampling for the un-proved clauses.",
             "DESIGN.md 4/C10"),
+    'C09': ("Lean 4 theorems (Harten's lemma on ZMod n for any ordered field: TVD and maximum principle; first-order upwind convection on ANY periodic mesh at CFL<=1 via the pipeline model; convexity of TV/range; limiter-ratio bounds) + exact-Q correspondence + TVD sweep",
+            "Machine-checked proof of Harten's TVD lemma and maximum principle on the cyclic index set, of the incremental form of one explicit step of the first-order periodic convection pipeline on an arbitrary mesh (either sign), hence TVD and range preservation for CFL<=1; convexity lemmas and the C05 Shu-Osher forms for the SSP lift; MUSCL coefficient bounds from the C12 limiter theorems. Partial: MUSCL/Burgers steps are not yet identified with the incremental form on the model; explored by the sweep (random, step, sawtooth, integer-tie, stationary-shock data).",
+            "Trusted: Lean kernel + standard axioms; transcription of fvm1d/fluxes/limiters/integrators (layers L-rhs1d, L-flux-conv/burgers, L-lim, L-int, L-dt); sampling for the partial clauses.",
+            "DESIGN.md 4/C09"),
+    'C04': ("Lean 4 theorems for the algebraic ingredients of convergence (exact quadratic defect (k-1/3)h^2/2 of the kappa reconstruction with the generated constants, order conditions, Lax-Richtmyer accumulation, consistency and conservation) + measured convergence studies against exact solutions",
+            "PARTIAL by nature (convergence is a limit statement): machine-checked proof that the kappa face value is exact for linear data and has defect exactly (k-1/3)h^2/2 on quadratics (third order iff k = 1/3, the value the source's extrapol3 carries), of every temporal order condition (C05), of the Lax-Richtmyer error accumulation for any non-expansive one-step map (with non-expansion of first-order upwind from C09), and of conservation form + flux consistency (C01, C02). Convergence itself - observed orders for every reconstruction, monotone L1 error decrease for random Riemann problems against an independent exact Riemann solver, agreement of the packaged aerokit-based reference solutions - is explored numerically and labelled as such.",
+            "Trusted: Lean kernel + standard axioms; gen_tables.py; the exact Riemann solver of the harness (riemann_exact.py); aerokit is external and unmodelled.",
+            "DESIGN.md 4/C04, 6"),
+    'C15': ("Lean 4 theorems on the structured 2D pipeline model (balance, periodic invariance, x/y shift equivariance, transposition, row-by-row reduction to the 1D pipeline) for arbitrary kernels obeying kernel laws proved for the Euler 2D kernels + exact-Q correspondence of every 2D stage",
+            "Machine-checked proof on the 2D model: transposing the problem (grid, data, velocity components, boundary pairs) transposes the residual; for y-independent data with periodic top/bottom each row of the 2D residual is the residual of the corresponding 1D discretisation (same flux, kappa scheme / first order) and the y-fluxes cancel; kernel laws (transposition, reduction to 1D, mirror in x and y) proved for e2Centered / e2Hlle (C02). Partial: reflections of the full operator, wall (sym) top/bottom in the reduction, and inlet/outlet boundary kernels' 2D mirror laws are explored by the sweep over all boundary tags.",
+            "Trusted: Lean kernel + standard axioms; the structured-index model and its flattening maps (validated by L-rhs2d over all four stage arrays and L-mesh2d); sampling for the partial clauses.",
+            "DESIGN.md 4/C15"),
 }
 
 NOT_YET = {}
